@@ -12,7 +12,7 @@ from vlib import compare, gen, model, runner
 from vlib import universe as U
 from vlib.props.c01 import classes_of
 
-TOTAL_KEY_TAGS = {'i', 's', 'f', 'by', 'n', 'KO'}
+TOTAL_KEY_TAGS = {'i', 's', 'f', 'by', 'n', 'KO', 'NZ', 'NB'}
 
 
 def _key_total(kd):
